@@ -450,3 +450,29 @@ Corollary run_hints_name_visible_items env docgen o s c :
 Proof.
   apply (proj2 (proj2 (ceval_visible_all env docgen)) o _ _ (incl_refl _) (incl_refl _)). cbn. constructor.
 Qed.
+
+(* ------------------------------------------------------------------ both stages together *)
+From BpafLemmas Require Import CompleteLaws.
+
+(* every candidate Complete::complete computes from hints that name visible items stems from such a hint *)
+Theorem candidates_from_visible_items Vn Vc cs arg po nm px i :
+  Forall (name_ok Vn Vc) cs -> In i (fst (complete cs arg po nm px)) ->
+  exists c, In c cs /\ name_ok Vn Vc c /\ comp_item arg po px c = Some i.
+Proof.
+  intros Hk Hi. destruct (complete_sound cs arg po nm px i Hi) as [c [Hc [_ [_ Hci]]]].
+  exists c. split; [exact Hc|]. split; [exact (proj1 (Forall_forall _ _) Hk c Hc)|exact Hci].
+Qed.
+
+(* a whole command level: whatever candidates are computed from the hints its parser collected, each stems from a
+   hint that names a visible item of the definition (or is a value / placeholder / shell completer) *)
+Corollary level_candidates_from_visible_items env docgen p s c arg po nm px i :
+  In i (fst (complete (kcomps (snd (snd (ceval env docgen p (s, Some (mkCst [] (cs_rev c) (cs_nopos c))))))) arg po nm px)) ->
+  exists h, name_ok (vis_names p) (vis_cmds p) h /\ comp_item arg po px h = Some i.
+Proof.
+  intros Hi.
+  pose proof (proj1 (ceval_visible_all env docgen) p _ _ (incl_refl _) (incl_refl _)
+                    (s, Some (mkCst [] (cs_rev c) (cs_nopos c)))) as Hk.
+  cbn [snd] in Hk. specialize (Hk (Forall_nil _)).
+  destruct (candidates_from_visible_items _ _ _ arg po nm px i (kall_comps _ _ _ Hk) Hi) as [h [_ [Hn Hc]]].
+  exists h. split; assumption.
+Qed.
